@@ -745,9 +745,10 @@ pub fn replay(path: &str) -> i32 {
                 "C03" => Oracle::C03,
                 "C12" => Oracle::C12,
                 "C04" => Oracle::C04,
+                "C06" => Oracle::C06,
                 _ => Oracle::C02,
             };
-            let prop: &'static str = match property.as_str() { "C03" => "C03", "C12" => "C12", "C04" => "C04", _ => "C02" };
+            let prop: &'static str = match property.as_str() { "C03" => "C03", "C12" => "C12", "C04" => "C04", "C06" => "C06", _ => "C02" };
             let cfg = CrashCfg { property: prop, oracle, policy, hash_seed, power_loss: case["power_loss"].as_bool().unwrap_or(false), second_crash: oracle == Oracle::C02, cont_struct: if matches!(oracle, Oracle::C02 | Oracle::C04) { 2 } else { 0 }, cont_other: if matches!(oracle, Oracle::C02 | Oracle::C04) { 2 } else { 0 }, initial_open: true };
             crash_leaf(&mut env, &leaf, &cfg);
         }
